@@ -67,4 +67,22 @@ theorem path_table_roundtrip (t : List PtEntry) (hok : ∀ e ∈ t, PtOk e) (big
     decodePt (encodePt t big) (t.map (fun e => (e.encode big).length)).sum big = t :=
   decodePt_encodePt t hok big
 
+/-- **A reader that follows a directory's location reads that directory's records.** For every tree, mode
+    and hierarchy: take the sector number and length that the records of directory `k` carry for it
+    (`dirLoc`, `dirLen` — its own '.', its parent's entry for it, its path table entry: all equal by the
+    link theorems), cut that extent out of the generated image and walk it as an ISO 9660 reader does:
+    the result is exactly the record list the layout computed for directory `k` — '.', '..', every file
+    with all its extents, every sub-directory. (Locations and lengths must fit 32 bits: image below 8 TiB.) -/
+theorem directory_reads_back (w : World) (root : Path) (ps3 : Bool) (clk : Clock) (filler : Bytes) (L : Layout)
+    (hL : layoutOf w root ps3 = some L) (joliet : Bool) (k : Nat) (it : DirItem) (hk : L.items[k]? = some it)
+    (hfit : ∀ r ∈ finalRecs L.items L.rootLen joliet (if joliet then L.jolietLBA else L.isoLBA) L.filesLBA k it,
+      r.extLoc < 2 ^ 32 ∧ r.extLen < 2 ^ 32) :
+    decodeRecs (slice (metaBytes L ps3 clk filler)
+        (dirLoc L.items joliet (if joliet then L.jolietLBA else L.isoLBA) k * sectorSize) (dirLen L.items joliet k)) =
+      finalRecs L.items L.rootLen joliet (if joliet then L.jolietLBA else L.isoLBA) L.filesLBA k it := by
+  have F := Proof.BuildWF.layoutOf_facts w root ps3 L hL
+  unfold dirLoc dirLen
+  rw [Proof.BuildWF.dir_at_its_location w L F ps3 clk filler joliet k it hk]
+  exact dir_extent_roundtrip _ _ _ _ _ _ _ hfit
+
 end Ps3.Props.C08
